@@ -25,6 +25,9 @@
    What is not proved: for corridors of three or more rectangles, that the funnel's answer is the shortest path inside
    the corridor (needs the theory of taut paths in simple polygons; not mechanised). It is searched against an
    independent visibility-graph/Dijkstra reference inside the router's class, on corridors of up to 18 rectangles.
+   For corridors of ANY length (end of this file, Proofs/GeomPaths*.v): the triangulation has 1..7 triangles per rectangle, each inside one
+   rectangle, and covers exactly the corridor; the answer runs from the end to the start point through rectangle corners and all its
+   points are in the corridor; of the four failure modes of the code only two are reachable in a well-formed corridor.
    Axioms: the three theorems about real lengths depend on the standard library's classical real-number axioms
    (ClassicalDedekindReals.sig_not_dec, sig_forall_dec, FunctionalExtensionality.functional_extensionality_dep);
    everything else is closed under the global context. *)
@@ -104,3 +107,67 @@ Theorem C19_two_rectangles_correct : forall r1 r2 p1 p2, two_rect_class r1 r2 p1
        (RealLength.rlen path <= RealLength.rlen other)%R).
 Proof. exact two_rect_correct. Qed.
 Print Assumptions C19_two_rectangles_correct.
+
+(* ---------- corridors of ANY length (Proofs/GeomPaths*.v): what is proved of the exact model of geom.Shortest for every number of
+   rectangles. NOT proved for three or more rectangles: that every SEGMENT of the answer lies in the corridor (only every POINT does)
+   and that the answer is shortest; those stay certified per instance by the verified checker and searched. ---------- *)
+From Autog Require Import GeomPaths GeomPaths2 GeomPaths3 GeomPaths4 GeomPaths5 GeomPaths7.
+
+(* the triangulation: linear size, every triangle inside one rectangle with corners of that rectangle or a neighbour as vertices,
+   and the triangles cover exactly the corridor *)
+Theorem C19_triangulation_size : forall rects,
+  (length rects <= length (triangulate rects) <= 7 * length rects)%nat.
+Proof. exact triangulate_count. Qed.
+Print Assumptions C19_triangulation_size.
+
+Theorem C19_triangulation_is_the_corridor : forall rects p, corridor_wf rects -> corridor_strict rects ->
+  (in_corridor rects p <-> exists t, In t (triangulate rects) /\ tri_contains t p = true).
+Proof. exact triangulation_exact. Qed.
+Print Assumptions C19_triangulation_is_the_corridor.
+
+Theorem C19_triangles_inside_the_corridor : forall rects t p,
+  corridor_wf rects -> In t (triangulate rects) -> in_triangle t p -> in_corridor rects p.
+Proof. exact triangulate_inside_corridor. Qed.
+Print Assumptions C19_triangles_inside_the_corridor.
+
+(* the answer, for ALL inputs: it runs from the end point to the start point, and every other point is a vertex of the triangulation *)
+Theorem C19_answer_shape : forall p1 p2 rects path, shortest p1 p2 rects = Ok path ->
+  exists rest, path = p2 :: rest /\ rest <> [] /\ pt_eqb (last path (0, 0)%Q) p1 = true /\
+               forall q, In q rest -> q = p1 \/ tri_vertex rects q.
+Proof. exact shortest_shape. Qed.
+Print Assumptions C19_answer_shape.
+
+(* ... hence every point of the answer lies in the corridor (every point: not yet every segment) *)
+Theorem C19_answer_points_inside : forall p1 p2 rects path,
+  corridor_wf rects -> in_corridor rects p1 -> in_corridor rects p2 -> shortest p1 p2 rects = Ok path ->
+  forall q, In q path -> in_corridor rects q.
+Proof. exact shortest_points_inside. Qed.
+Print Assumptions C19_answer_points_inside.
+
+(* the Go panic "disconnected triangulation diagonal" is unreachable for every input; for points of a well-formed corridor the
+   triangle search never fails either: only the deque overflow (63) and the predecessor loop (65) remain — the two failures of the
+   recorded finding `degenerate-position` *)
+Theorem C19_no_disconnected_diagonal : forall p1 p2 rects, shortest p1 p2 rects <> Err (ErrIndex 64).
+Proof. exact shortest_no_disconnected. Qed.
+Print Assumptions C19_no_disconnected_diagonal.
+
+Theorem C19_only_two_failures_in_a_corridor : forall rects p1 p2 e,
+  corridor_wf rects -> corridor_strict rects -> in_corridor rects p1 -> in_corridor rects p2 ->
+  shortest p1 p2 rects = Err e -> e = ErrIndex 63 \/ e = ErrFuel 65.
+Proof. exact corridor_errors. Qed.
+Print Assumptions C19_only_two_failures_in_a_corridor.
+
+(* inside the router's class, any number of rectangles: end point, corners of rectangles, start point — all in the corridor *)
+Theorem C19_in_class_outcome : forall rects p1 p2, corridor_class rects p1 p2 = true ->
+  (exists mid, shortest p1 p2 rects = Ok (p2 :: mid ++ [p1]) /\
+     (forall q, In q mid -> tri_vertex rects q /\ exists r, In r rects /\ corner_of r q) /\
+     (forall q, In q (p2 :: mid ++ [p1]) -> in_corridor rects q)) \/
+  shortest p1 p2 rects = Err (ErrIndex 63) \/ shortest p1 p2 rects = Err (ErrFuel 65).
+Proof. exact class_total_outcome. Qed.
+Print Assumptions C19_in_class_outcome.
+
+(* not vacuous: a four-rectangle staircase in the class, and its answer *)
+Example C19_staircase_instance :
+  corridor_class stair4 (20, 0)%Q (40, 80)%Q = true /\
+  shortest (20, 0)%Q (40, 80)%Q stair4 = Ok [(40, 80); (56, 56); (56, 40); (20, 0)]%Q.
+Proof. split; [exact stair4_class | exact stair4_shortest]. Qed.
